@@ -5,7 +5,7 @@
    behaviour that is observed by the correspondence harness and not modelled. *)
 From Verif Require Import Base.Prelude Base.StrUtil Base.Index Base.NdArr Model.MapSpec Model.MapSpecSpec
   Model.MapRun Model.MapDenote Model.SymBody Model.XrLabel Model.XrLabelSpec
-  Proofs.StrFacts Proofs.MapSpecFacts Proofs.XrLabelFacts Proofs.XrLabelTotal Proofs.XrLabelCorr Corr.Run_C19.
+  Proofs.StrFacts Proofs.MapSpecFacts Proofs.XrLabelFacts Proofs.XrLabelTotal Proofs.XrLabelCorr Proofs.XrLabelCapstone Corr.Run_C19.
 
 (* Hypotheses shared by the theorems (all enforced by Pipeline construction):
      NoDup (out_names specs)               every array is the output of at most one function,
@@ -199,6 +199,21 @@ Theorem C19_spec_rejects_errors : forall c e, valid c = true -> spec_ok c (SErr 
 Proof. exact spec_rejects_errors. Qed.
 Print Assumptions C19_spec_rejects_errors.
 
+(* CAPSTONE - link to the differential check: outside the regions of the three known findings
+     region_conflict  an index name is used with two different sizes,
+     region_plain     an output without MapSpec is an array of rank >= 2,
+     region_zsel      kind 1 = selection by the value of a zipped coordinate,
+   the observation of the model (Run_C19.run: resolve the request - constructing the auto-generated
+   MapSpecs -, run the model of Pipeline.map, label, render) satisfies the executable statement `spec_ok`
+   that the harness applies to the implementation's observations, for EVERY valid case.  The proof uses the
+   Prop-level theorems above (dims_are_axes, trace = carried, coordinate/zipped/dataset theorems, names
+   never collide, totality) and C01_map_run_denotes; the harness evaluates the same equation on samples
+   (`spec_failures_on_model`). *)
+Theorem C19_model_meets_spec : forall c,
+  valid c = true -> known_region c = false -> spec_ok c (run c) = true.
+Proof. exact capstone. Qed.
+Print Assumptions C19_model_meets_spec.
+
 (* ---------- the part of the property that the code does not satisfy ---------- *)
 (* Full statement (false):  forall c, valid c = true -> spec_ok c (run c) = true.
    For kind 1 cases (selection by the value of a zipped coordinate) the faithful model - the zipped
@@ -254,8 +269,9 @@ Print Assumptions C19_unmapped_array_output_refuted.
 
 (* non-vacuity of the executable statement: the same request satisfies everything else (kind 0) *)
 Example C19_example_label_ok :
-  valid (zsel_witness 0) = true /\ spec_ok (zsel_witness 0) (run (zsel_witness 0)) = true.
-Proof. vm_compute. split; reflexivity. Qed.
+  valid (zsel_witness 0) = true /\ known_region (zsel_witness 0) = false
+  /\ spec_ok (zsel_witness 0) (run (zsel_witness 0)) = true.
+Proof. vm_compute. repeat split; reflexivity. Qed.
 
 (* non-vacuity of the hypotheses: x[i], z[i] -> y[i] ; y[i], u[j] -> w[i, j] ; w[i, :] -> r[i] *)
 Definition ex_specs : list mapspec :=
